@@ -56,6 +56,7 @@ type C18Expect struct {
 	RefNames   []string `json:"ref_names,omitempty"` // spellings under which other files reference it
 	Others     []string `json:"others,omitempty"`    // other renderable names (must be unchanged when load succeeds)
 	Content    string   `json:"content,omitempty"`   // content the loader sees for the faulted file (truncation / garbage)
+	Reload     bool     `json:"reload,omitempty"`    // the healthy tree (scenario.prior[0]) was loaded in this process first; no reset in between
 }
 
 // ---- registry scenarios -----------------------------------------------------------
@@ -161,7 +162,7 @@ func genC18Registry(r *Rng) *Scenario {
 	sort.Strings(ex.NotNames)
 	sort.Strings(ex.Names)
 	sc.C18 = ex
-	cfg := Cfg{Dir: sp.dir, Ext: ext}
+	cfg := Cfg{Dir: sp.dir, Ext: ext, Debug: r.Chance(50)}
 	sc.Ops = []Op{{Kind: "newtemplate", Cfg: &cfg}}
 	return sc
 }
@@ -322,6 +323,14 @@ func applyStaticFault(files []File, idx int, fault string, arg int) ([]File, str
 	case "truncate":
 		f.Data = f.Data[:arg]
 		content = f.Data
+	case "corrupt-same-size":
+		// overwrite a window in the middle; size (and the simulated mtime) stay the same
+		junk := "{{ ) }}"
+		if len(f.Data) >= len(junk) {
+			at := arg % (len(f.Data) - len(junk) + 1)
+			f.Data = f.Data[:at] + junk + f.Data[at+len(junk):]
+		}
+		content = f.Data
 	case "short-read":
 		z := arg
 		f.Short = &z
@@ -354,8 +363,22 @@ func (p c18) faultScenario(base *Scenario, t *Tree, c c18FaultCase) *Scenario {
 // checkC18Fault executes one faulted load and applies the fault table.
 func checkC18Fault(sc *Scenario, budget int64, baseline map[string]Obs, acc *Acc) (*c18Fail, bool) {
 	ex := sc.C18
-	w := NewWorld(sc.Cwd, sc.Files)
-	pinSeams()
+	var w *World
+	if ex.Reload && len(sc.Prior) > 0 {
+		// the healthy tree is loaded (and a page rendered) first; then the disk changes under
+		// the running process and the tree is loaded again
+		pw := NewWorld(sc.Cwd, sc.Prior[0].Files)
+		pinSeams()
+		pw.RunOp(sc.Ops[0], Budget)
+		for _, o := range ex.Others {
+			pw.RunOp(Op{Kind: "string", Name: o, Data: c18Data}, Budget)
+		}
+		w = &World{FS: BuildFS(sc.Cwd, sc.Files), Rec: pw.Rec}
+		simrt.SetFS(w.FS)
+	} else {
+		w = NewWorld(sc.Cwd, sc.Files)
+		pinSeams()
+	}
 	for _, ff := range sc.FSFaults {
 		switch ff.Kind {
 		case "failop":
@@ -382,9 +405,13 @@ func checkC18Fault(sc *Scenario, budget int64, baseline map[string]Obs, acc *Acc
 			acc.Fault(k, int64(n))
 		}
 	}
-	hit := fired > 0 || ex.Fault == "deleted" || strings.HasPrefix(ex.Fault, "garbage") || ex.Fault == "truncate"
+	hit := fired > 0 || ex.Fault == "deleted" || strings.HasPrefix(ex.Fault, "garbage") || ex.Fault == "truncate" || ex.Fault == "corrupt-same-size"
 	mk := func(clause, what string) *c18Fail {
-		return &c18Fail{sig: fmt.Sprintf("fault:%s:%s:%s", ex.Fault, roleClass(ex), what), clause: clause,
+		fl := ex.Fault
+		if ex.Reload {
+			fl = "reload+" + fl
+		}
+		return &c18Fail{sig: fmt.Sprintf("fault:%s:%s:%s", fl, roleClass(ex), what), clause: clause,
 			detail: fmt.Sprintf("fault %s on %s (%s, referenced=%v)", ex.Fault, ex.FaultPath, ex.Role, ex.Referenced), got: lo.Short()}
 	}
 	switch lo.Kind {
@@ -463,7 +490,7 @@ func checkC18Fault(sc *Scenario, budget int64, baseline map[string]Obs, acc *Acc
 		return nil, hit
 	case ex.Fault == "dangling" || ex.Fault == "eacces" || ex.Fault == "eio":
 		return mustFail("unreadable"), hit
-	case ex.Fault == "truncate" || ex.Fault == "short-read" || strings.HasPrefix(ex.Fault, "garbage"):
+	case ex.Fault == "truncate" || ex.Fault == "short-read" || ex.Fault == "corrupt-same-size" || strings.HasPrefix(ex.Fault, "garbage"):
 		rej, po := parserRejects(ex.Content, ex.FaultPath, budget)
 		if po.Kind != "ok" {
 			// the parser itself hangs or panics on this prefix; the load observation above
@@ -552,15 +579,22 @@ func (p c18) Run(seed uint64, run int, tier string, acc *Acc) *Violation {
 			acc.Viol = append(acc.Viol, v)
 		}
 	}
+	healthy := base.Clone()
+	reload := false
 	doCase := func(c c18FaultCase, dyn []FSFault, faultName string) {
 		sc := p.faultScenario(base, t, c)
 		if faultName != "" {
 			sc.C18.Fault = faultName
 		}
+		if reload {
+			sc.C18.Reload = true
+			sc.Prior = []*Scenario{healthy}
+			acc.Probe("cases-after-a-healthy-load-in-the-same-process", 1)
+		}
 		sc.FSFaults = dyn
 		f, hit := checkC18Fault(sc, budget, baseline, acc)
 		if hit {
-			acc.Distinct[hashStr(base.Hash(), fmt.Sprint(c, dyn))] = true
+			acc.Distinct[hashStr(base.Hash(), fmt.Sprint(c, dyn, reload))] = true
 		}
 		acc.Probe("cases/"+strings.TrimRight(sc.C18.Fault, "0123456789"), 1)
 		if sc.C18.Referenced {
@@ -587,6 +621,22 @@ func (p c18) Run(seed uint64, run int, tier string, acc *Acc) *Violation {
 			doCase(c18FaultCase{i, "eio", 1 + r.Intn(len(content)-1)}, nil, "")
 		}
 		doCase(c18FaultCase{i, "none", 0}, []FSFault{{Kind: "vanish", Path: f.Path}}, "vanish")
+		for k := 0; k < 3 && len(content) >= 7; k++ {
+			doCase(c18FaultCase{i, "corrupt-same-size", r.Intn(len(content))}, nil, "")
+		}
+		// the same static faults appearing AFTER a healthy load in the same process
+		reload = true
+		for _, fault := range []string{"deleted", "dir", "dangling", "eacces", "eio"} {
+			doCase(c18FaultCase{i, fault, 0}, nil, "")
+		}
+		doCase(c18FaultCase{i, "garbage", r.Intn(3)}, nil, "")
+		for k := 0; k < 3 && len(content) >= 7; k++ {
+			doCase(c18FaultCase{i, "corrupt-same-size", r.Intn(len(content))}, nil, "")
+		}
+		for k := 0; k < 4 && len(content) > 0; k++ {
+			doCase(c18FaultCase{i, "truncate", r.Intn(len(content))}, nil, "")
+		}
+		reload = false
 	}
 	// every k-th file-system operation fails
 	for k := 0; k < nops; k++ {
@@ -617,7 +667,7 @@ func (p c18) minimise(sc *Scenario, f *c18Fail) *Violation {
 		return ff
 	}
 	for i := len(cur.Files) - 1; i >= 0; i-- {
-		if cur.C18.Kind == "fault" && cur.Files[i].Path == cur.C18.FaultPath {
+		if cur.C18.Kind == "fault" && (cur.Files[i].Path == cur.C18.FaultPath || cur.C18.Reload) {
 			continue
 		}
 		t := cur.Clone()
